@@ -35,8 +35,8 @@ PROPS = {
   "explanation": "theorems over the bit-exact model for the discrete clauses; the model is tied to the Go code by differential run (incl. 300-iteration log and 150000-iteration power series)",
  },
  "C14": {
-  "modules": ["OsmoVerif.Props.C14", "OsmoVerif.Props.C14Mono"],
-  "min_theorems": 25,
+  "modules": ["OsmoVerif.Props.C14", "OsmoVerif.Props.C14Mono", "OsmoVerif.Props.C14RoundTrip"],
+  "min_theorems": 38,
   "fingerprints": ["CL.*"],
   "engines": [{"name": "tick", "kind": "pure", "n": {"quick": 60000, "thorough": 400000}, "shards": {"quick": 4, "thorough": 4},
                "env": {"thorough": {"VERIF_TICK_SWEEP": "1", "VERIF_TICK_SWEEP_STRIDE": "61"}}}],
@@ -46,7 +46,9 @@ PROPS = {
   "assumptions": ["thorough tier additionally sweeps every 61st tick of the whole range per shard with the per-tick clauses (formula, strict monotonicity, "
                   "round trip, bucket edges); VERIF_TICK_SWEEP_STRIDE=1 enumerates all 6.1e8 ticks (about 40 min on 16 cores)"],
   "explanation": "theorems: closed formula of tick->price on the whole range, strict monotonicity of price AND sqrt price, bounds, out-of-range rejection, "
-                 "spacing rounding spec, bucket containment of the sqrt-price search; model tied by differential run. Round-trip totality (sp(t) maps back to t) is tested (sweep), not proved.",
+                 "spacing rounding spec, bucket containment AND completeness of the sqrt-price search (the candidate is the true bucket or the one above, so the +-1 correction always "
+                 "suffices): round trip sp(t) -> t for every tick of [MinCurrentTick, MaxTick] and no spurious error for every sqrt price of [sp(MinCurrentTick), MaxSqrtPrice]; "
+                 "model tied by differential run (the sweep still tests the round trip on the implementation).",
  },
  "C18": {
   "modules": ["OsmoVerif.Props.C18"],
